@@ -34,6 +34,16 @@ Proof. repeat split. Qed.
 Example ex_after : w_after 2 (w_new [0;1;2;3;4;5;6;7;8;9] 4 3) = Ok (Some (mkW 4 3 [6;7;8;9])).
 Proof. reflexivity. Qed.
 
+(* provided Iterator methods, L = 11, bin = 4, hop = 3 (hop does not divide L - bin): the last chunk is
+   number 2 and starts at frame 6 — not at L - bin = 7 *)
+Example ex_last : w_last 12 (w_new [0;1;2;3;4;5;6;7;8;9;10] 4 3) = Ok (Some [6;7;8;9], mkW 4 3 [9;10]).
+Proof. reflexivity. Qed.
+Example ex_nth : w_nth 1 (w_new [0;1;2;3;4;5;6;7;8;9;10] 4 3) = Ok (Some [3;4;5;6], mkW 4 3 [6;7;8;9;10]) /\
+                 w_nth 3 (w_new [0;1;2;3;4;5;6;7;8;9;10] 4 3) = Ok (None, mkW 4 3 [9;10]).
+Proof. split; reflexivity. Qed.
+Example ex_step_by : w_step_by_take 2 5 (w_new [0;1;2;3;4;5;6;7;8;9;10] 4 3) = Ok ([[0;1;2;3]; [6;7;8;9]], mkW 4 3 [9;10]).
+Proof. reflexivity. Qed.
+
 (* hop = 0 (outside the domain): never advances, size_hint says (usize::MAX, None) *)
 Example ex_hop0 : w_next (mkW 2 0 [1;2;3]) = Ok (Some ([1;2], mkW 2 0 [1;2;3])) /\
                   w_size_hint (mkW 2 0 [1;2;3]) = Ok HintForever.
